@@ -30,6 +30,7 @@ mod c14;
 mod dce;
 mod gocomp;
 mod namecat;
+mod lower;
 mod nametest;
 mod gopp;
 mod probe;
@@ -77,6 +78,7 @@ fn main() {
         "infer" => infer::main(&args),
         "gopp" => gopp::main(&args),
         "namecat" => namecat::main(&args),
+        "lower" => lower::main(&args),
         "probe" => probe::main(&args),
         "stages" => probe::stages(&args),
         "golden" => probe::golden(&args),
